@@ -39,7 +39,7 @@ def Res.isOk : Res → Bool
 /-- the method's own reading of a completely received 200 body -/
 def readBody (op : Op) (body : Body) (v : Nat) : Res :=
   match op with
-  | .blockGet => .ok (if body = .expected then 1 else 0) 0     -- any bytes are handed back
+  | .blockGet => .ok (if body = .expected ∨ body = .expectedAny then 1 else 0) 0     -- any bytes are handed back
   | .blockPut =>
     (match body with
      | .expected | .expectedAny => .ok 0 0        -- a decodable Key (a different one is a warning only)
